@@ -510,6 +510,7 @@ class HarnessRT(object):
         self.lazy_calls = {}
         self.sync_depth = 0
         self.task_of_frame = {}
+        self.provider_probes = []
         self.evil = None
         self.evil_fired = 0
         self.book = None
@@ -765,6 +766,8 @@ class HarnessRT(object):
     def _lazy(self, site, inst, mode):
         def provider():
             self.lazy_calls[inst] = self.lazy_calls.get(inst, 0) + 1
+            for p in self.provider_probes:
+                p(self)
             if mode == "sync":
                 # the provider itself uses asynq synchronously (and needs no batch)
                 t_nop(self)
